@@ -27,6 +27,21 @@ def msg_class(msg):
     return m.strip()[:60]
 
 
+def validate(ctx, *a, **kw):
+    """validate_trace_sharded, retried once with smaller parts when a TLC process disappears
+    (killed under memory pressure on the shared machine) -- an infrastructure problem, never a verdict."""
+    try:
+        return ctx.validate_trace_sharded(*a, **kw)
+    except vk.Inconclusive as e:
+        if "consumed ?" not in str(e) and "resource failure" not in str(e):
+            raise
+        ctx.log("trace validation failed (%s); retrying once with smaller parts" % e)
+        kw["shards"] = kw.get("shards", 8) * 2
+        kw["name"] = kw.get("name", "tlcs") + "_retry"
+        kw["heap"] = "2g"
+        return ctx.validate_trace_sharded(*a, **kw)
+
+
 def run(ctx):
     res = ctx.model_check("QueryLang", "QueryLang_mc.cfg", name="tlc_gen", timeout=7200, workers=4, defines={
         "Families": '{"grammar", "fields", "damage", "json"}', "MaxLenGrammar": ctx.pick(5, 6), "MaxLenDamage": ctx.pick(4, 5),
@@ -67,7 +82,7 @@ def run(ctx):
     ctx.log("driver done: %d events" % len(events))
 
     # the trace spec reads whole groups: split only at input events; no header line
-    acc, rej = ctx.validate_trace_sharded("Trace_Total", "Trace_Total.cfg", outp, header_lines=0, shards=8, name="tlcs",
+    acc, rej = validate(ctx, "Trace_Total", "Trace_Total.cfg", outp, header_lines=0, shards=8, name="tlcs",
                                           timeout=14400, group_start=lambda ln: '"ev":"input"' in ln)
 
     inputs = {}
@@ -96,9 +111,8 @@ def run(ctx):
                 sig = "C07:%s:%s" % (e["op"], r["why"])
             else:
                 if e["outcome"] == "crash":
-                    # a panic contained by the sharded searcher: its cause is the panic the bare shard searcher shows
-                    cause = [x for x in ops_of[e["id"]] if x["outcome"] == "panic" and x["op"] in ("search-shard", "list-shard")]
-                    site, cls = (cause[0]["site"], msg_class(cause[0]["msg"])) if cause else ("?", "")
+                    # a panic contained by the sharded searcher; the bare shard searcher shows the panic itself
+                    site, cls = "?", ""
                 if e["outcome"] in ("hang", "oom", "died", "stackoverflow"):
                     cls = ""
                 sig = "C07:%s:%s:%s:%s" % (e["op"], e["outcome"], site or "?", cls)
